@@ -1182,12 +1182,12 @@ func Harness_C12_api() {
 			return nil
 		})
 	}
-	live := []string{nameMenu[VerifChoose(6)]}
+	live := []string{apiMenu[VerifChoose(6)]}
 	VerifAssert(addNames(live, false) == nil, "first-add")
 	var err error
 	var post []string
 	if VerifChoose(2) == 0 {
-		n := nameMenu[VerifChoose(6)]
+		n := apiMenu[VerifChoose(6)]
 		del := VerifChoose(2) == 1
 		err = addNames([]string{n}, del)
 		post = append(post, live...)
@@ -1200,7 +1200,7 @@ func Harness_C12_api() {
 		}
 	} else {
 		// two tables in one Addition; the first may delete the live ref
-		n1, n2 := nameMenu[VerifChoose(6)], nameMenu[VerifChoose(6)]
+		n1, n2 := apiMenu[VerifChoose(6)], apiMenu[VerifChoose(6)]
 		del1 := VerifChoose(2) == 1
 		if n1 == n2 {
 			return
@@ -1247,14 +1247,14 @@ func Harness_C12_batch() {
 	if st == nil {
 		return
 	}
-	first := nameMenu[VerifChoose(6)]
+	first := apiMenu[VerifChoose(6)]
 	err := st.Add(func(w *Writer) error {
 		ui := st.NextUpdateIndex()
 		w.SetLimits(ui, ui)
 		return w.AddRef(&RefRecord{RefName: first, UpdateIndex: ui, Value: hashWith(20, 1, 1)})
 	})
 	VerifAssert(err == nil, "first-add")
-	n1, n2 := nameMenu[VerifChoose(6)], nameMenu[VerifChoose(6)]
+	n1, n2 := apiMenu[VerifChoose(6)], apiMenu[VerifChoose(6)]
 	del1 := VerifChoose(2) == 1
 	if n1 == n2 {
 		return
@@ -1335,7 +1335,7 @@ func Harness_C12_handles() {
 			return w.AddRef(r)
 		})
 	}
-	n1 := nameMenu[VerifChoose(6)]
+	n1 := apiMenu[VerifChoose(6)]
 	VerifAssert(add1(h1, n1, false) == nil, "first-add")
 	VerifAs(2)
 	h2 := mustOpen(dir, cfg, "open-h2")
@@ -1348,14 +1348,14 @@ func Harness_C12_handles() {
 		VerifAssert(add1(h1, n1, true) == nil, "h1-delete")
 		live = nil
 	} else {
-		n2 := nameMenu[VerifChoose(6)]
+		n2 := apiMenu[VerifChoose(6)]
 		if n2 != n1 && !specNameConflicts([]string{n1, n2}) {
 			VerifAssert(add1(h1, n2, false) == nil, "h1-second-add")
 			live = append(live, n2)
 		}
 	}
 	VerifAs(2)
-	n3 := nameMenu[VerifChoose(6)]
+	n3 := apiMenu[VerifChoose(6)]
 	err := add1(h2, n3, false)
 	if err == ErrLockFailure {
 		err = add1(h2, n3, false)
